@@ -174,11 +174,63 @@ func c04do(tl *taskLogger, c *c04call) {
 			ce.Write(fields...)
 		}
 	case feSugarW:
-		tl.s.Logw(c.lvl, msg, "t", c.task, "s", c.seq, "pad", c.pad)
+		if c.seq%2 == 0 {
+			tl.s.Logw(c.lvl, msg, "t", c.task, "s", c.seq, "pad", c.pad)
+			break
+		}
+		switch c.lvl {
+		case zapcore.DebugLevel:
+			tl.s.Debugw(msg, "t", c.task, "s", c.seq, "pad", c.pad)
+		case zapcore.InfoLevel:
+			tl.s.Infow(msg, "t", c.task, "s", c.seq, "pad", c.pad)
+		case zapcore.WarnLevel:
+			tl.s.Warnw(msg, "t", c.task, "s", c.seq, "pad", c.pad)
+		default:
+			tl.s.Errorw(msg, "t", c.task, "s", c.seq, "pad", c.pad)
+		}
 	case feSugarF:
-		tl.s.Logf(c.lvl, "%s|%d|%s", msg, c.seq, c.pad)
+		if c.seq%2 == 0 {
+			tl.s.Logf(c.lvl, "%s|%d|%s", msg, c.seq, c.pad)
+			break
+		}
+		switch c.lvl {
+		case zapcore.DebugLevel:
+			tl.s.Debugf("%s|%d|%s", msg, c.seq, c.pad)
+		case zapcore.InfoLevel:
+			tl.s.Infof("%s|%d|%s", msg, c.seq, c.pad)
+		case zapcore.WarnLevel:
+			tl.s.Warnf("%s|%d|%s", msg, c.seq, c.pad)
+		default:
+			tl.s.Errorf("%s|%d|%s", msg, c.seq, c.pad)
+		}
 	case feSugarLn:
-		tl.s.Logln(c.lvl, msg, c.seq, c.pad)
+		switch {
+		case c.seq%3 == 0:
+			tl.s.Logln(c.lvl, msg, c.seq, c.pad)
+		case c.seq%3 == 1:
+			switch c.lvl {
+			case zapcore.DebugLevel:
+				tl.s.Debugln(msg, c.seq, c.pad)
+			case zapcore.InfoLevel:
+				tl.s.Infoln(msg, c.seq, c.pad)
+			case zapcore.WarnLevel:
+				tl.s.Warnln(msg, c.seq, c.pad)
+			default:
+				tl.s.Errorln(msg, c.seq, c.pad)
+			}
+		default:
+			// the print-style methods
+			switch c.lvl {
+			case zapcore.DebugLevel:
+				tl.s.Debug(msg, "|", c.pad)
+			case zapcore.InfoLevel:
+				tl.s.Info(msg, "|", c.pad)
+			case zapcore.WarnLevel:
+				tl.s.Log(c.lvl, msg, "|", c.pad)
+			default:
+				tl.s.Error(msg, "|", c.pad)
+			}
+		}
 	case feSlog:
 		var sl slog.Level
 		switch c.lvl {
@@ -381,7 +433,11 @@ func runC04(c *Ctx) {
 		n := 1 + g.Draw(3)
 		r.Go("sync", func() {
 			for i := 0; i < n; i++ {
-				_ = base.Sync()
+				if i%2 == 0 {
+					_ = base.Sync()
+				} else {
+					_ = base.Sugar().Sync()
+				}
 				zsim.Yield(zsim.KOp, nil)
 			}
 		})
